@@ -47,7 +47,7 @@ Init == m = M0 /\ nDown = 0 /\ owed = {} /\ lastReqs = <<>> /\ lastSts = <<>> /\
 \* an accepted Class A downlink with requests reqs (as the last event of an uplink's receive procedure)
 Downlink(reqs) ==
     LET m1 == AfterSendPrepare(m, FALSE)
-        base == [m1 EXCEPT !.sess.down = NextDown, !.sess.adrCnt = 0, !.sess.pending = <<>>]
+        base == [m1 EXCEPT !.sess.down = NextDown, !.sess.adrCnt = AdrZero, !.sess.pending = <<>>]
         sts == NaturalStatuses(base, reqs)
         v == [n |-> NextDown, confirmed |-> FALSE, fopts |-> <<>>, port |-> -1, payload |-> <<>>, classA |-> TRUE]
         m2 == FoldRequests(base, reqs, sts)
